@@ -211,6 +211,27 @@ func init() {
 				x.Spawn("C", func() { x.Op("C", "Remove(2)", func() ([]uint32, error) { return nil, ix.remove(2) }) })
 			}, []uint32{2, 3}, vNoErr,
 			func(x *vSchedExec, ix *vConcIdx) { srch(x, ix, "main", nil) }))
+		// S7: two adds and a search race on an EMPTY index (first-insert paths)
+		vScenarios = append(vScenarios, vIdxScenario(k, "S7-add-add-search-on-empty", mk,
+			func(ix *vConcIdx) {},
+			func(x *vSchedExec, ix *vConcIdx) {
+				x.Spawn("A", func() { x.Op("A", "Add(1)", func() ([]uint32, error) { return nil, ix.add(1, 0) }) })
+				x.Spawn("B", func() { x.Op("B", "Add(2)", func() ([]uint32, error) { return nil, ix.add(2, 1) }) })
+				x.Spawn("C", func() { srch(x, ix, "C", nil) })
+			}, nil, vNoErr,
+			func(x *vSchedExec, ix *vConcIdx) { srch(x, ix, "main", nil) }))
+		// S8: add, remove and re-add of the same id race with a search
+		vScenarios = append(vScenarios, vIdxScenario(k, "S8-remove-readd-search", mk,
+			func(ix *vConcIdx) { ix.add(1, 0); ix.add(2, 1) },
+			func(x *vSchedExec, ix *vConcIdx) {
+				x.Spawn("A", func() {
+					x.Op("A", "Remove(1)", func() ([]uint32, error) { return nil, ix.remove(1) })
+					x.Op("A", "Add(3)", func() ([]uint32, error) { return nil, ix.add(3, 2) })
+				})
+				x.Spawn("B", func() { x.Op("B", "Flush", func() ([]uint32, error) { return nil, ix.flush() }) })
+				x.Spawn("C", func() { srch(x, ix, "C", nil) })
+			}, []uint32{1, 2}, vNoErr,
+			func(x *vSchedExec, ix *vConcIdx) { srch(x, ix, "main", nil) }))
 		// S5: two restricted searches (pooled filters / heaps) + an add
 		if k != "metadata" && k != "hybrid" {
 			vScenarios = append(vScenarios, &vScenario{Prop: "C11", Name: k + "/S5-restricted-searches",
